@@ -4,7 +4,7 @@ import json
 import os
 
 import vflib
-from vflib import trace_stage, world_stage, mc_stage, log
+from vflib import trace_stage, world_stage, mc_stage, apalache_stage, log
 
 CHECKS = {}
 LEVELS = {}
@@ -223,6 +223,9 @@ def c09(run):
     trace_stage(run, "sbf-tables", "supply",
                 nontrivial=lambda e: e["in"]["supply"].get("Q", 1) < e["in"]["supply"].get("P", 1),
                 keyfn=lambda e: (e["op"], e["in"]["supply"]))
+    # unbounded, symbolic: the closed form is 0 at 0 / monotone / 1-Lipschitz, the library's arithmetic (transcribed) equals it,
+    # the specialised service_time formulas are its exact inverse, deadline = period and budget = period degenerate as stated
+    apalache_stage(run, "unbounded-obligations", "SupplyProofs.tla", ["Shape", "LibAgrees", "Equivalences", "Inverse"])
     # R1: every placement of the budget (reservation automaton), every window position and length:
     # never less service than the recorded table claims, and the table is attained at every length
     world_stage(run, "placements", "resv", "MCReservation.tla", "MCReservation.cfg", slim=("id", "Q", "D", "P", "sbf"),
@@ -245,6 +248,9 @@ def c10(run):
     trace_stage(run, "eta-tables", "eta",
                 nontrivial=lambda e: "eta" in e["out"] and len(set(e["out"]["eta"])) > 2,
                 keyfn=lambda e: e["in"].get("m"))
+    # unbounded, symbolic: the Periodic / Sporadic closed form is 0 at 0, monotone, sub-additive, monotone in the jitter,
+    # and delaying by j2 equals observing a window longer by j2
+    apalache_stage(run, "unbounded-obligations", "ArrivalProofs.tla", ["Shape", "SubAdditive", "Jitter"])
     # R1: explicit event generators (arrivals >= T apart + per-event delay; delta-min prefixes; delayed copies;
     # superposition), every window position and length: never more events than the recorded table claims;
     # for Periodic / Sporadic the table is attained at every window length
@@ -261,6 +267,12 @@ def c11(run):
     trace_stage(run, "steps", "steps",
                 nontrivial=lambda e: "tbl" in e["out"] and len(set(e["out"]["tbl"])) > 3,
                 keyfn=lambda e: e["in"].get("m") or e["in"].get("dm"))
+    _c11_symbolic(run)
+
+
+def _c11_symbolic(run):
+    # unbounded, symbolic: the closed-form steps of Sporadic / Periodic are exactly the increase points of the closed-form bound
+    apalache_stage(run, "unbounded-obligations", "ArrivalProofs.tla", ["StepsExact"])
 
 
 @check("C16")
